@@ -1914,6 +1914,10 @@ def meta_sources():
         Grammar("m5", [Rule("S", Choice(Seq(), Lit("a"), Lit("b")), export=True),
                        Rule("T", Seq(Choice(Seq(), Call("S", "s")), Opt(Choice(Seq(), Lit("x"))), Clo(Choice(Seq(), Seq(), Lit("y"))),
                                      Choice(Seq(), Seq(Neg(Choice(Seq(), Lit("z"))), Call("S", "u", boxed=True)))))]),
+        Grammar("m6", [Rule("S", Seq(Call("_Tail_1", "_first"), Call("R_2__x", "f_1"), Opt(Call("lower", "F")), Clo(Call("X9", "_")), Call("_", "under")),
+                            export=True),
+                       Rule("_Tail_1", Lit("a")), Rule("R_2__x", Lit("b"), string=True), Rule("lower", Call("X9", "@")),
+                       Rule("X9", Lit("9")), Rule("_", Lit("_")), CharRule("_c", [("lit", "_"), ("ref", "_d")]), CharRule("_d", [("range", "0", "9")])]),
         Grammar("m4", [Rule("S", Choice(Seq(Choice(Lit("a"), Lit("b")), Choice(Seq(Lit("c"), Lit("d")), Lit("e"))), Opt(Choice(Lit("f"), Seq()))),
                             export=True)]),
     ]
